@@ -51,6 +51,10 @@ type AppA struct {
 	Failed   string // first FinalizeBlock / Commit error
 	Blocks   []BlockA
 	KeeperOK []bool
+	// EagerBlocks: every block operation immediately produces an empty block at its time.
+	EagerBlocks bool
+	// OnBlock is called after every committed block.
+	OnBlock func(BlockA)
 	// log interpreter state
 	cur     time.Time
 	opened  bool
@@ -245,6 +249,9 @@ func (x *AppA) deliver(t time.Time, msgs []Op) BlockA {
 	blk.AppHash = fmt.Sprintf("%X", resp.AppHash)
 	blk.Render = sb.String()
 	x.Blocks = append(x.Blocks, blk)
+	if x.OnBlock != nil {
+		x.OnBlock(blk)
+	}
 	return blk
 }
 
@@ -266,6 +273,9 @@ func (x *AppA) Feed(o Op) {
 		x.flush()
 		x.cur = o.Time
 		x.opened = false
+		if x.EagerBlocks { // an empty block at the new time right away; transactions follow in later blocks
+			x.flush()
+		}
 	case OpAddAllowed, OpUpdateAllowed, OpSetBalance:
 		x.direct(o)
 	case OpUpdateParams:
